@@ -31,6 +31,7 @@ type Case struct {
 	Order     string `json:"order"`     // p_first | s_first | together | p_only (secondary is never released)
 	Pause     bool   `json:"pause"`     // hold the primary between signalling 'done' and queueing its answer
 	Cancel    string `json:"cancel"`    // none | before | after_first
+	Prelude   int    `json:"prelude"`   // earlier calls (threshold 1 ms, primary fails at once, secondary answers after 3 ms) whose threshold timer expires unobserved: history for pooled state
 }
 
 func genCase(t *rapid.T) Case {
@@ -41,6 +42,9 @@ func genCase(t *rapid.T) Case {
 		Threshold: rapid.SampledFrom([]string{"never", "never", "elapsed"}).Draw(t, "threshold"),
 		Order:     rapid.SampledFrom([]string{"p_first", "s_first", "together", "p_only"}).Draw(t, "order"),
 		Cancel:    rapid.SampledFrom([]string{"none", "none", "none", "before", "after_first"}).Draw(t, "cancel"),
+	}
+	if rapid.IntRange(0, 3).Draw(t, "hasPrelude") == 0 {
+		c.Prelude = rapid.IntRange(1, 3).Draw(t, "prelude")
 	}
 	if c.Standby && c.Threshold == "never" && c.P == "answer" && c.Cancel == "none" {
 		c.Pause = rapid.Bool().Draw(t, "pause")
@@ -89,7 +93,42 @@ func waitFor(d time.Duration, f func() bool) bool {
 	return true
 }
 
+// prelude runs one complete earlier call: the primary fails at once, the secondary answers after the 1 ms threshold
+// has passed, so the call's threshold timer fires without anybody receiving from it.
+func prelude() *hx.Failure {
+	p := &gated{name: "primary", outcome: "error", gate: make(chan struct{})}
+	s := &gated{name: "secondary", outcome: "answer", gate: make(chan struct{})}
+	close(p.gate)
+	m := coremain.NewTestMosdnsWithPlugins(map[string]any{"p": sequence.Executable(p), "s": sequence.Executable(s)})
+	fb, err := fallback.Init(coremain.NewBP("fb", m), &fallback.Args{Primary: "p", Secondary: "s", Threshold: 1, AlwaysStandby: false})
+	if err != nil {
+		return hx.Failf("C20/harness", "init: %v", err)
+	}
+	q := new(dns.Msg)
+	q.SetQuestion("prelude.c20.test.", dns.TypeA)
+	qCtx := query_context.NewContext(q)
+	go func() { time.Sleep(3 * time.Millisecond); close(s.gate) }()
+	cx, cancel := context.WithTimeout(context.Background(), 10*time.Second)
+	defer cancel()
+	if err := fb.(sequence.Executable).Exec(cx, qCtx); err != nil {
+		return hx.Failf("C20/expected-answer", "earlier call: the primary failed, the secondary answered, Exec returned %v", err)
+	}
+	if r := qCtx.R(); r == nil || len(r.Answer) != 1 || r.Answer[0].(*dns.TXT).Txt[0] != "from-secondary" {
+		return hx.Failf("C20/wrong-winner", "earlier call: the primary failed, the secondary answered, Exec left %v", r)
+	}
+	quiesce.WaitGone("fallback.(*fallback).doFallback", 5*time.Second)
+	return nil
+}
+
 func runCase(c Case, ctx *hx.Ctx) *hx.Failure {
+	for i := 0; i < c.Prelude; i++ {
+		if f := prelude(); f != nil {
+			return f
+		}
+	}
+	if c.Prelude > 0 {
+		ctx.Class("history:earlier-call-with-unobserved-threshold-timer")
+	}
 	p := &gated{name: "primary", outcome: c.P, gate: make(chan struct{})}
 	s := &gated{name: "secondary", outcome: c.S, gate: make(chan struct{})}
 	m := coremain.NewTestMosdnsWithPlugins(map[string]any{"p": sequence.Executable(p), "s": sequence.Executable(s)})
